@@ -92,6 +92,12 @@ f('C12', 'periodic-small-basis-geometry', 'make_splines_identical with a periodi
 f('C12', 'periodic-insert-small-basis', 'make_splines_identical lowering the periodicity of a small periodic basis (n < p+k): wrong geometry (see C08)', False, {'call': 'small periodic partner'})
 f('C12', 'order1-direction-greville-zerodivision', 'make_splines_identical on objects with an order-1 direction and differing orders elsewhere raises ZeroDivisionError (see C05)', False, {'call': 'surface with an order-1 direction'})
 
+f('C18', 'numbering-ignores-edge-and-corner-contact', 'global control-point numbering reads numbers only through codimension-1 sections: patches meeting (at the time they are added) only in an edge or corner get duplicate numbers for shared points', False, {'call': 'SplineModel(3,3,[Volume(), Volume()+(1,1,0)]) -> 16 numbers for 14 points'})
+f('C18', 'numbering-self-connected-seam', 'a self-connected patch (closed ring added as one patch) owns both copies of its seam: seam points numbered twice; faces() raises', False, {'call': 'ring surface added as a single patch'})
+f('C18', 'cps-rational-valueerror', 'SplineModel.cps() raises ValueError for rational patches (reshape(-1, dimension) on dimension+1 components)', False, {'call': 'SplineModel with a rational patch; m.generate_cp_numbers(); m.cps()'})
+f('C18', 'openfoam-boundary-count-without-internal-faces', 'OpenFOAM.write declares len(set(names))-1 boundary patches: one too few when the mesh has no internal faces', False, {'call': 'single cube with named faces written with OpenFOAM'})
+f('C11', 'nutils-patch-mutates-operands', 'poisson_patch/elasticity_patch/finitestrain_patch reversed and re-discretised their operand curves in place (found by the source-derived effect analysis; needs nutils to run)', True, {'call': 'surface_factory.poisson_patch(b,r,t,l)'})
+
 FIXED_COMMITS = {('C02', 'curve-evaluate-rejects-tensor-keyword'): '3ae9973', ('C03', 'rational-surface-d-not-tuple-returns-zeros'): 'cd5762c', ('C03', 'rational-derivative-order-zero-returns-zero'): '9f6e350', ('C03', 'rational-closed-form-ignores-above-list'): 'ea90458+cd5762c', ('C03', 'rational-left-limit-at-discontinuity'): '9f6e350+ea90458', ('C05', 'curve-raise-order-zero-returns-none'): '6ca09d8', ('C05', 'curve-dimension1-controlpoints-flattened'): '2d51429', ('C06', 'reverse-periodic-flip-only'): '4fe14f6', ('C06', 'swap-curve-returns-none'): '4f754a8', ('C09', 'infix-truediv-undefined'): '6773409', ('C11', 'extrude-mutates-operand'): 'c412e04', ('C11', 'section-point-view'): 'bb6c762', ('C11', 'swap-curve-returns-none'): '4f754a8', ('C11', 'curve-raise-order-0-returns-none'): '6ca09d8', ('C11', 'coons-patch-reverses-operands'): '9b346de', ('C13', 'three-point-arc-wrong-end'): 'b23deeb', ('C13', 'three-point-arc-nan-half-turn'): 'b0aae77', ('C13', 'arc-2pi-ignores-xaxis'): 'cf8223f', ('C13', 'cylinder-height-scaled-by-axis-norm'): '1445103', ('C14', 'manipulate-getargspec'): 'e2f7e0b', ('C14', 'lsq-flat-layout-reshape'): '3534aae', ('C14', 'volume-loft-two-sections'): 'f8de1df', ('C16', 'torsion-scalar-branch-uses-acceleration'): '274e74a', ('C16', 'rational-curve-one-element-list-derivative-squeezed'): 'ea90458', ('C16', 'integrate-periodic-collapse-single-fold'): 'fc5b45b', ('C17', 'nodeview-section-wrong-frame'): '8e83d07', ('C19', 'stl-2d-surface-resize'): '932700c', ('C19', 'g2-reversed-periodic-primitive'): '4fe14f6', ('C20', 'state-not-restored-on-exception'): 'cc29465', ('C20', 'g2-bounded-surface-writes-state'): '18d24da', ('C20', 'splinemodel-vertex-tolerance-not-from-state'): '580c3fa'}
 FIXED = []
 if __name__ == '__main__':
